@@ -67,7 +67,7 @@ def mach_hash():
     files = [f for f in files if not f.endswith('Gen/Generated.v')]
     files += glob.glob(ROOT + '/tools/**/*.py', recursive=True) + glob.glob(ROOT + '/driver/driver.ml')
     files += glob.glob(ROOT + '/harness/src/*.rs') + [ROOT + '/harness/Cargo.toml']
-    files += glob.glob(ROOT + '/corpus/*.hist') + [ROOT + '/known_findings.json']
+    files += glob.glob(ROOT + '/corpus/*.hist') + glob.glob(ROOT + '/corpus/twins/*.hist') + [ROOT + '/known_findings.json']
     return file_hash(files)
 
 
@@ -301,6 +301,13 @@ def ensure_corr(seed, tier, build):
             res['samples'].append({'history': h, 'first_lines': hs[h][:12], 'calls': len(hs[h]) - 4})
         # ---- twins (C04): interrupted vs single-call runs of the same history
         th, tw, tk, tc = generate(seed + 1, n_twin, twin=True, tag='t')
+        # directed twin pairs (same history ids in A = interrupted and B = single-call), run first
+        ca, cb = ROOT + '/corpus/twins/A.hist', ROOT + '/corpus/twins/B.hist'
+        if os.path.exists(ca) and os.path.exists(cb):
+            hA, oA = corr.read_history_file(ca)
+            hB, oB = corr.read_history_file(cb)
+            th = [hA[h] for h in oA if h in hB] + th
+            tw = [hB[h] for h in oA if h in hB] + tw
         a_path, b_path = os.path.join(work, 'twinA.hist'), os.path.join(work, 'twinB.hist')
         write_hist_file(a_path, th)
         write_hist_file(b_path, tw)
